@@ -1,0 +1,44 @@
+//go:build verif
+
+package adapter
+
+import (
+	"time"
+
+	"github.com/karagenc/socket.io-go/parser"
+)
+
+// VerifNewSessionAwareAdapterCreator is NewSessionAwareAdapterCreator with a configurable
+// clean-up period (production hard-codes one minute). cleanerDuration == 0 disables the cleaner.
+func VerifNewSessionAwareAdapterCreator(maxDisconnectionDuration, cleanerDuration time.Duration) Creator {
+	creator := NewInMemoryAdapterCreator()
+	return func(socketStore SocketStore, parserCreator parser.Creator) Adapter {
+		inMemoryAdapter := creator(socketStore, parserCreator).(*inMemoryAdapter)
+		return newSessionAwareAdapter(inMemoryAdapter, maxDisconnectionDuration, cleanerDuration)
+	}
+}
+
+// VerifLogIDs returns the offsets (ids) of the packets currently in the log of a session-aware adapter.
+func VerifLogIDs(a Adapter) (ids []string, ok bool) {
+	sa, ok := a.(*sessionAwareAdapter)
+	if !ok {
+		return nil, false
+	}
+	sa.mu.Lock()
+	defer sa.mu.Unlock()
+	for _, p := range sa.packets {
+		ids = append(ids, p.ID)
+	}
+	return ids, true
+}
+
+// VerifSessionCount returns the number of persisted sessions of a session-aware adapter.
+func VerifSessionCount(a Adapter) (n int, ok bool) {
+	sa, ok := a.(*sessionAwareAdapter)
+	if !ok {
+		return 0, false
+	}
+	sa.mu.Lock()
+	defer sa.mu.Unlock()
+	return len(sa.sessions), true
+}
